@@ -61,6 +61,15 @@ class C04(Prop):
             if all(any(e.get("pid") == 0 and e.get("ph") == "X" for e in r["events"]) for r in case["ranks"]):
                 maybe_fractional(rng, case, k)
                 case["prefix"] = draw_prefix(rng)
+                if k % 7 == 3:
+                    # a computation kernel whose name merely CONTAINS the word of another class (not at its start)
+                    for r in case["ranks"]:
+                        comp = [e for e in r["events"] if e.get("ph") == "X" and e.get("cat") == "kernel" and e.get("name") in gen.K_COMP]
+                        if comp:
+                            old_name = comp[k % len(comp)]["name"]
+                            for e in comp:
+                                if e["name"] == old_name:
+                                    e["name"] = gen.K_COMP_MEMSET_LIKE
                 return case
         raise RuntimeError("could not generate a trace with device activities on every rank")
 
